@@ -46,11 +46,33 @@ for k in (1, 16, 32, 63):
         wus = nn * 10**6 + k * 15625
         uu = wus + random.choice([-2, -1, 0, 0, 1, 2, 7, -40000, 40000])
         r = datetime.timedelta(microseconds=uu).total_seconds()
-        w = nn + k / 64.0
+        wv = nn + k / 64.0
         for name, t in terms.items():
             got = z3.is_true(z3.simplify(z3.substitute(t.t, (u, z3.IntVal(uu)), (n, z3.IntVal(nn)))))
-            want = {'lt': r < w, 'le': r <= w, 'ge': r >= w, 'gt': r > w, 'rle': w <= r, 'rlt': w < r}[name]
+            want = {'lt': r < wv, 'le': r <= wv, 'ge': r >= wv, 'gt': r > wv, 'rle': wv <= r, 'rlt': wv < r}[name]
             cnt += 1
             if got != want:
                 bad += 1; print(name, uu, nn, k, got, want)
 print('dyadic n', cnt, 'bad', bad)
+# fromtimestamp(total_seconds) rounding
+rm = core.toint(f.round_micros())
+bad = 0; cnt = 0
+E0 = datetime.datetime(1970, 1, 1, tzinfo=datetime.timezone.utc)
+for i in range(6000):
+    e = random.choice([0, 10, 25, 31, 32, 33, 34, 35, 36, 37])
+    q = random.randrange(1 << e, 1 << (e + 1))
+    if q > 253000000000:
+        q = 253000000000 - random.randrange(10**6)
+    fr = random.choice([0, 1, 2, 499999, 500000, 500001, 999999, 999998,
+                        random.randrange(10**6), random.randrange(10**6)])
+    uu = q * 10**6 + fr
+    if random.random() < 0.3 and uu < 62135596800 * 10**6:
+        uu = -uu
+    r = datetime.timedelta(microseconds=uu).total_seconds()
+    d = datetime.datetime.fromtimestamp(r, tz=datetime.timezone.utc) - E0
+    want = (d.days * 86400 + d.seconds) * 10**6 + d.microseconds
+    got = ev(rm, uu, 0).as_long()
+    cnt += 1
+    if got != want:
+        bad += 1; print('fromts', uu, got, want)
+print('fromtimestamp n', cnt, 'bad', bad)
